@@ -1342,6 +1342,8 @@ def module_attr(I, mod: ModuleVal, name: str):
             return Builtin('os.path.' + name, pathfn)
     if mod.name == 'itertools' and name == 'count':
         return Builtin('itertools.count', lambda start=0, step=1: CountVal(start))
+    if mod.name == 'sys' and name == 'intern':
+        return Builtin('sys.intern', lambda s: s)       # interning does not change the value of a string
     if mod.name == 'inspect' and name == 'isgenerator':
         return Builtin('inspect.isgenerator', lambda v: isinstance(v, GenVal))
     if mod.name == 'operator':
